@@ -166,83 +166,54 @@ Proof.
 Qed.
 
 (* ---------------------------------------------------------------------------------- *)
-(* String layer on a string that fits its capacity *)
-Lemma str_remove_range_ok c s i n : length s <= c -> i + n <= length s -> 0 < n ->
-  str_remove_range c s i n = Val (firstn i s ++ skipn (i + n) s, true).
-Proof.
-  intros Hc Hin Hn. unfold str_remove_range.
-  assert (Nat.ltb (length s) (i + n) = false) as -> by lia.
-  assert (Nat.leb c (length s - n) = false) as -> by lia. reflexivity.
-Qed.
-Lemma str_remove_range_zero c s i : length s < c -> i <= length s ->
-  str_remove_range c s i 0 = Val (s, true).
-Proof.
-  intros Hc Hi. unfold str_remove_range.
-  assert (Nat.ltb (length s) (i + 0) = false) as -> by lia.
-  assert (Nat.leb c (length s - 0) = false) as -> by lia.
-  rewrite Nat.add_0_r, firstn_skipn. reflexivity.
-Qed.
-Lemma str_remove_range_zero_full c s i : length s = c -> i <= length s ->
-  str_remove_range c s i 0 = Panic.
-Proof.
-  intros Hc Hi. unfold str_remove_range.
-  assert (Nat.ltb (length s) (i + 0) = false) as -> by lia.
-  assert (Nat.leb c (length s - 0) = true) as -> by lia. reflexivity.
-Qed.
-Lemma str_remove_range_oob c s i n : length s < i + n -> str_remove_range c s i n = Val (s, false).
+(* ---------------------------------------------------------------------------------- *)
+(* String layer *)
+Lemma str_remove_range_ok s i n : i + n <= length s ->
+  str_remove_range s i n = (firstn i s ++ skipn (i + n) s, true).
+Proof. intros H. unfold str_remove_range. assert (Nat.ltb (length s) (i + n) = false) as -> by lia. reflexivity. Qed.
+Lemma str_remove_range_oob s i n : length s < i + n -> str_remove_range s i n = (s, false).
 Proof. intros H. unfold str_remove_range. assert (Nat.ltb (length s) (i + n) = true) as -> by lia. reflexivity. Qed.
 
-Lemma str_remove_ok c s i : length s <= c -> i < length s ->
-  str_remove c s i = Val (firstn i s ++ skipn (S i) s, Some (nth i s 0%N)).
+Lemma str_remove_ok s i : i < length s -> str_remove s i = (firstn i s ++ skipn (S i) s, Some (nth i s 0%N)).
 Proof.
-  intros Hc Hi. unfold str_remove. assert (Nat.leb (length s) i = false) as -> by lia.
-  rewrite str_remove_range_ok by lia. now rewrite Nat.add_1_r.
+  intros Hi. unfold str_remove. assert (Nat.leb (length s) i = false) as -> by lia.
+  rewrite str_remove_range_ok by lia. cbn [fst]. now rewrite Nat.add_1_r.
 Qed.
-Lemma str_remove_oob c s i : length s <= i -> str_remove c s i = Val (s, None).
+Lemma str_remove_oob s i : length s <= i -> str_remove s i = (s, None).
 Proof. intros Hi. unfold str_remove. assert (Nat.leb (length s) i = true) as -> by lia. reflexivity. Qed.
 
-Lemma retain_loop_eq c f k s : length s <= c -> k <= length s ->
-  retain_loop c f k s = Val (filter (fun x => negb (f x)) (firstn k s) ++ skipn k s).
+Lemma retain_loop_eq f k s : k <= length s ->
+  retain_loop f k s = filter (fun x => negb (f x)) (firstn k s) ++ skipn k s.
 Proof.
-  revert s; induction k as [|k IH]; intros s Hc Hk; cbn [retain_loop].
+  revert s; induction k as [|k IH]; intros s Hk; cbn [retain_loop].
   - reflexivity.
   - rewrite (firstn_S_nth s k 0%N) by lia. rewrite filter_app. cbn [filter].
     destruct (f (nth k s 0%N)) eqn:F; cbn [negb].
-    + rewrite str_remove_ok by lia.
+    + rewrite str_remove_ok by lia. cbn [fst].
       assert (L1 : length (firstn k s) = k) by (rewrite firstn_length; lia).
       rewrite IH.
       * rewrite firstn_app, L1, Nat.sub_diag, firstn_O, app_nil_r, firstn_firstn, Nat.min_id.
         rewrite skipn_app, L1, Nat.sub_diag, (skipn_all2 (firstn k s)) by lia.
         cbn [skipn app]. now rewrite app_nil_r.
       * rewrite app_length, firstn_length, skipn_length. lia.
-      * rewrite app_length, firstn_length, skipn_length. lia.
     + rewrite IH by lia. rewrite <- app_assoc. cbn [app].
       now rewrite <- (skipn_nth_cons s k 0%N) by lia.
 Qed.
-Lemma str_retain_eq c f s : length s <= c -> str_retain c f s = Val (filter (fun x => negb (f x)) s).
-Proof.
-  intros Hc. unfold str_retain. rewrite retain_loop_eq by lia.
-  now rewrite firstn_all, skipn_all, app_nil_r.
-Qed.
+Lemma str_retain_eq f s : str_retain f s = filter (fun x => negb (f x)) s.
+Proof. unfold str_retain. rewrite retain_loop_eq by lia. now rewrite firstn_all, skipn_all, app_nil_r. Qed.
 
-Lemma str_strip_prefix_no c s b : starts_with b s = false -> str_strip_prefix c s b = Val (s, false).
+Lemma str_strip_prefix_no s b : starts_with b s = false -> str_strip_prefix s b = (s, false).
 Proof.
   intros H. unfold str_strip_prefix. pose proof (str_find_not_zero s b H) as Hn.
   destruct (str_find s b) as [[|n]|]; tauto.
 Qed.
-Lemma str_strip_prefix_yes c s b : length s <= c -> starts_with b s = true ->
-  str_strip_prefix c s b = if (Nat.eqb (length b) 0 && Nat.eqb (length s) c)%bool then Panic else Val (skipn (length b) s, true).
+Lemma str_strip_prefix_yes s b : starts_with b s = true -> str_strip_prefix s b = (skipn (length b) s, true).
 Proof.
-  intros Hc H. unfold str_strip_prefix. apply str_find_zero in H as F. rewrite F.
-  apply str_find_zero, starts_with_length in F.
-  destruct (Nat.eqb (length b) 0) eqn:B0; cbn [andb].
-  - assert (length b = 0) as -> by lia. destruct (Nat.eqb (length s) c) eqn:Full.
-    + rewrite str_remove_range_zero_full by lia. reflexivity.
-    + rewrite str_remove_range_zero by lia. reflexivity.
-  - rewrite str_remove_range_ok by lia. reflexivity.
+  intros H. unfold str_strip_prefix. apply str_find_zero in H as F. rewrite F.
+  apply starts_with_length in H. rewrite str_remove_range_ok by lia. reflexivity.
 Qed.
 
-Lemma str_strip_suffix_no c s b : is_suffix b s = false -> str_strip_suffix c s b = Val (s, false).
+Lemma str_strip_suffix_no s b : is_suffix b s = false -> str_strip_suffix s b = (s, false).
 Proof.
   intros H. unfold str_strip_suffix. destruct (Nat.ltb (length s) (length b)) eqn:L; auto.
   destruct (str_rfind s b) as [v|] eqn:R; auto.
@@ -250,23 +221,18 @@ Proof.
   assert (is_suffix b s = true); [|congruence].
   apply str_rfind_pos; [lia|]. eauto.
 Qed.
-Lemma str_strip_suffix_yes c s b : length s <= c -> is_suffix b s = true ->
-  str_strip_suffix c s b = if (Nat.eqb (length b) 0 && Nat.eqb (length s) c)%bool then Panic else Val (firstn (length s - length b) s, true).
+Lemma str_strip_suffix_yes s b : is_suffix b s = true ->
+  str_strip_suffix s b = (firstn (length s - length b) s, true).
 Proof.
-  intros Hc H. unfold str_strip_suffix.
+  intros H. unfold str_strip_suffix.
   assert (L : length b <= length s) by (unfold is_suffix in H; lia).
   assert (Nat.ltb (length s) (length b) = false) as -> by lia.
   apply str_rfind_pos in H as [v [R E]]; auto. rewrite R, E. cbn [negb].
-  destruct (Nat.eqb (length b) 0) eqn:B0; cbn [andb].
-  - assert (length b = 0) as -> by lia. rewrite Nat.sub_0_r. destruct (Nat.eqb (length s) c) eqn:Full.
-    + rewrite str_remove_range_zero_full by lia. reflexivity.
-    + rewrite str_remove_range_zero by lia. now rewrite firstn_all.
-  - rewrite str_remove_range_ok by lia.
-    replace (length s - length b + length b) with (length s) by lia.
-    now rewrite skipn_all, app_nil_r.
+  rewrite str_remove_range_ok by lia.
+  replace (length s - length b + length b) with (length s) by lia.
+  now rewrite skipn_all, app_nil_r.
 Qed.
 
-(* ---------------------------------------------------------------------------------- *)
 (* the generic characterisation of a semantic type: what new() accepts *)
 Definition gen_rules (T : sty) (s : str) : bool :=
   Nat.leb (length s) (cap T) && forallb ascii_nonnul s && negb (inv_chars T s) && negb (inv_content T s).
@@ -312,27 +278,25 @@ Proof. intros V L A. apply invalid_R; auto. apply R_len in V. lia. Qed.
 
 Ltac caseR := match goal with |- context[if R ?x then _ else _] => let Rc := fresh "Rc" in destruct (R x) eqn:Rc end.
 
-Definition ins_err (s b : str) : semerr :=
-  if (Nat.ltb (cap T) (length s + length b) || existsb bad_byte b)%bool then ExceedsMaximumLength else InvalidContent.
-
 Lemma sem_insert_bytes_oob s i b : length s < i -> sem_insert_bytes T s i b = Panic.
 Proof.
   intros H. unfold sem_insert_bytes, str_insert_bytes.
   assert (Nat.ltb (length s) i = true) as -> by lia. reflexivity.
 Qed.
 
+(* error kind: too long => ExceedsMaximumLength, otherwise InvalidContent = spec_err *)
 Lemma sem_insert_bytes_eq s i b : R s = true -> i <= length s ->
   sem_insert_bytes T s i b =
     if R (firstn i s ++ b ++ skipn i s) then Val (firstn i s ++ b ++ skipn i s, inl tt)
-    else Val (s, inr (ins_err s b)).
+    else Val (s, inr (spec_err (cap T) (firstn i s ++ b ++ skipn i s))).
 Proof.
   intros V Hi. pose proof (R_len s V) as Ls. pose proof (R_ascii s V) as As.
   set (cand := firstn i s ++ b ++ skipn i s).
   assert (Lc : length cand = length s + length b).
   { unfold cand. rewrite !app_length, firstn_length, skipn_length. lia. }
-  unfold sem_insert_bytes, str_insert_bytes, ins_err.
+  unfold sem_insert_bytes, str_insert_bytes, spec_err. rewrite Lc.
   assert (Nat.ltb (length s) i = false) as -> by lia.
-  destruct (Nat.ltb (cap T) (length s + length b)) eqn:Lcap; cbn [orb].
+  destruct (Nat.ltb (cap T) (length s + length b)) eqn:Lcap.
   - rewrite R_too_long by lia. reflexivity.
   - destruct (existsb bad_byte b) eqn:Bad.
     + rewrite R_not_ascii; [reflexivity|].
@@ -343,10 +307,8 @@ Proof.
       { unfold cand. rewrite !forallb_app, (forallb_ascii_bad b), Bad, forallb_firstn, forallb_skipn; auto. }
       rewrite invalid_R by (auto; lia).
       destruct (R cand) eqn:Rc; cbn [negb]; [reflexivity|].
-      destruct b as [|x b'].
-      * exfalso. unfold cand in Rc. cbn [app] in Rc. rewrite firstn_skipn in Rc. congruence.
-      * rewrite str_remove_range_ok; [| lia | rewrite Lc; lia | cbn; lia].
-        unfold cand. now rewrite firstn_skipn_mid.
+      rewrite str_remove_range_ok by (rewrite Lc; lia). cbn [fst].
+      unfold cand. now rewrite firstn_skipn_mid.
 Qed.
 
 Lemma sem_remove_eq s i : R s = true ->
@@ -365,30 +327,24 @@ Proof.
     + rewrite forallb_app, forallb_firstn, forallb_skipn; auto.
 Qed.
 
-Lemma sem_pop_eq s : R s = true ->
+Lemma sem_pop_eq s :
   sem_pop T s = match s with [] => Val (s, inl None) | _ => sem_remove T s (length s - 1) end.
-Proof. intros V. unfold sem_pop. destruct s; reflexivity. Qed.
+Proof. unfold sem_pop. destruct s; reflexivity. Qed.
 
 Lemma sem_remove_range_eq s i n : R s = true ->
   sem_remove_range T s i n =
     if Nat.ltb (length s) (i + n) then Val (s, inl tt)
-    else if (Nat.eqb n 0 && Nat.eqb (length s) (cap T))%bool then Panic
     else if R (firstn i s ++ skipn (i + n) s) then Val (firstn i s ++ skipn (i + n) s, inl tt)
     else Val (s, inr InvalidContent).
 Proof.
   intros V. pose proof (R_len s V) as Ls. pose proof (R_ascii s V) as As.
   unfold sem_remove_range. destruct (Nat.ltb (length s) (i + n)) eqn:Li.
-  - rewrite str_remove_range_oob by lia. rewrite invalid_R by auto. rewrite V. reflexivity.
-  - destruct (Nat.eqb n 0) eqn:N0; cbn [andb].
-    + assert (n = 0) as -> by lia. destruct (Nat.eqb (length s) (cap T)) eqn:Full.
-      * rewrite str_remove_range_zero_full by lia. reflexivity.
-      * rewrite str_remove_range_zero by lia. rewrite invalid_R by auto. rewrite V. cbn [negb].
-        rewrite Nat.add_0_r, firstn_skipn, V. reflexivity.
-    + rewrite str_remove_range_ok by lia.
-      rewrite (invalid_R_sub s); auto.
-      * now destruct (R (firstn i s ++ skipn (i + n) s)).
-      * rewrite app_length, firstn_length, skipn_length. lia.
-      * rewrite forallb_app, forallb_firstn, forallb_skipn; auto.
+  - rewrite str_remove_range_oob by lia. cbn [fst]. rewrite invalid_R by auto. rewrite V. reflexivity.
+  - rewrite str_remove_range_ok by lia. cbn [fst].
+    rewrite (invalid_R_sub s); auto.
+    + now destruct (R (firstn i s ++ skipn (i + n) s)).
+    + rewrite app_length, firstn_length, skipn_length. lia.
+    + rewrite forallb_app, forallb_firstn, forallb_skipn; auto.
 Qed.
 
 Lemma sem_retain_eq s f : R s = true ->
@@ -397,7 +353,7 @@ Lemma sem_retain_eq s f : R s = true ->
     else Val (s, inr InvalidContent).
 Proof.
   intros V. pose proof (R_len s V) as Ls. pose proof (R_ascii s V) as As.
-  unfold sem_retain. rewrite str_retain_eq by lia.
+  unfold sem_retain. rewrite str_retain_eq.
   rewrite (invalid_R_sub s); auto.
   - now destruct (R (filter (fun x => negb (f x)) s)).
   - apply filter_len_le.
@@ -407,15 +363,12 @@ Qed.
 Lemma sem_strip_prefix_eq s b : R s = true ->
   sem_strip_prefix T s b =
     if starts_with b s then
-      if (Nat.eqb (length b) 0 && Nat.eqb (length s) (cap T))%bool then Panic
-      else if R (skipn (length b) s) then Val (skipn (length b) s, inl true)
-      else if Nat.ltb LOG_STRING_CAP (length b) then Panic else Val (s, inr InvalidContent)
+      if R (skipn (length b) s) then Val (skipn (length b) s, inl true) else Val (s, inr InvalidContent)
     else Val (s, inl false).
 Proof.
   intros V. pose proof (R_len s V) as Ls. pose proof (R_ascii s V) as As.
   unfold sem_strip_prefix. destruct (starts_with b s) eqn:P.
-  - rewrite str_strip_prefix_yes by auto.
-    destruct (Nat.eqb (length b) 0 && Nat.eqb (length s) (cap T))%bool; [reflexivity|].
+  - rewrite str_strip_prefix_yes by auto. cbn [fst].
     rewrite (invalid_R_sub s); auto.
     + now destruct (R (skipn (length b) s)).
     + rewrite skipn_length. lia.
@@ -426,15 +379,13 @@ Qed.
 Lemma sem_strip_suffix_eq s b : R s = true ->
   sem_strip_suffix T s b =
     if is_suffix b s then
-      if (Nat.eqb (length b) 0 && Nat.eqb (length s) (cap T))%bool then Panic
-      else if R (firstn (length s - length b) s) then Val (firstn (length s - length b) s, inl true)
-      else if Nat.ltb LOG_STRING_CAP (length b) then Panic else Val (s, inr InvalidContent)
+      if R (firstn (length s - length b) s) then Val (firstn (length s - length b) s, inl true)
+      else Val (s, inr InvalidContent)
     else Val (s, inl false).
 Proof.
   intros V. pose proof (R_len s V) as Ls. pose proof (R_ascii s V) as As.
   unfold sem_strip_suffix. destruct (is_suffix b s) eqn:P.
-  - rewrite str_strip_suffix_yes by auto.
-    destruct (Nat.eqb (length b) 0 && Nat.eqb (length s) (cap T))%bool; [reflexivity|].
+  - rewrite str_strip_suffix_yes by auto. cbn [fst].
     rewrite (invalid_R_sub s); auto.
     + now destruct (R (firstn (length s - length b) s)).
     + rewrite firstn_length. lia.
@@ -456,234 +407,115 @@ Proof.
     + now apply forallb_firstn.
 Qed.
 
-(* new(): accepted exactly when the rules hold, the value is the input; never a panic
-   (capacity >= 1 is the static_assert of the real types) *)
-Lemma sem_new_eq b : 1 <= cap T ->
-  sem_new T b = if R b then Val (inl b) else Val (inr (ins_err [] b)).
+(* new(): accepted exactly when the rules hold, the value is the input; never a panic *)
+Lemma sem_new_eq b :
+  sem_new T b = if R b then Val (inl b) else Val (inr (spec_err (cap T) b)).
 Proof.
-  intros C1. unfold sem_new, sem_push_bytes, sem_insert_bytes, str_insert_bytes, ins_err.
+  unfold sem_new, sem_push_bytes, sem_insert_bytes, str_insert_bytes, spec_err.
   cbn [length firstn skipn app]. rewrite !Nat.add_0_l. change (Nat.ltb 0 0) with false. cbn iota.
-  destruct (Nat.ltb (cap T) (length b)) eqn:Lcap; cbn [orb].
+  destruct (Nat.ltb (cap T) (length b)) eqn:Lcap.
   - rewrite R_too_long by lia. reflexivity.
   - destruct (existsb bad_byte b) eqn:Bad.
     + rewrite R_not_ascii; [reflexivity|]. now rewrite forallb_ascii_bad, Bad.
     + rewrite app_nil_r.
       assert (Ab : forallb ascii_nonnul b = true) by now rewrite forallb_ascii_bad, Bad.
       rewrite invalid_R by (auto; lia).
-      destruct (R b) eqn:Rb; cbn [negb]; [reflexivity|].
-      unfold str_remove_range. rewrite Nat.add_0_l. cbn [firstn app].
-      assert (Nat.ltb (length b) (length b) = false) as -> by lia.
-      rewrite Nat.sub_diag. assert (Nat.leb (cap T) 0 = false) as -> by lia. reflexivity.
+      destruct (R b) eqn:Rb; cbn [negb]; reflexivity.
 Qed.
 
-(* the refinement: outside the known classes the code does what the spec says *)
-Lemma spec_err_ins s i b : i <= length s ->
-  known_class (cap T) R s (OpInsertBytes i b) = false ->
-  R (firstn i s ++ b ++ skipn i s) = false ->
-  ins_err s b = spec_err (cap T) (firstn i s ++ b ++ skipn i s).
-Proof.
-  intros Hi K Rc. unfold ins_err, spec_err.
-  rewrite !app_length, firstn_length, skipn_length.
-  replace (Nat.min i (length s) + (length b + (length s - i))) with (length s + length b) by lia.
-  destruct (Nat.ltb (cap T) (length s + length b)) eqn:L; cbn [orb]; auto.
-  destruct (existsb bad_byte b) eqn:Bad; auto.
-  exfalso. unfold known_class, err_kind_class in K. cbn [inserted_bytes] in K. rewrite Bad in K.
-  assert (Nat.leb i (length s) = true) as E1 by lia. assert (Nat.leb (length s + length b) (cap T) = true) as E2 by lia.
-  rewrite E1, E2 in K. discriminate.
-Qed.
-
-Lemma refine_insert s i b : R s = true -> known_class (cap T) R s (OpInsertBytes i b) = false ->
+Lemma refine_insert s i b : R s = true ->
   lift (fun _ : unit => ObUnit) (sem_insert_bytes T s i b) =
   (if Nat.ltb (length s) i then Panic else gcommit (cap T) R s (firstn i s ++ b ++ skipn i s) ObUnit).
 Proof.
-  intros V K. destruct (Nat.ltb (length s) i) eqn:Li.
+  intros V. destruct (Nat.ltb (length s) i) eqn:Li.
   - rewrite sem_insert_bytes_oob by lia. reflexivity.
   - rewrite sem_insert_bytes_eq by (auto; lia). unfold gcommit.
     destruct (R (firstn i s ++ b ++ skipn i s)) eqn:Rc; cbn [lift]; auto.
-    rewrite (spec_err_ins s i b); auto. lia.
 Qed.
 
-Lemma known_push s x : known_class (cap T) R s (OpPush x) = known_class (cap T) R s (OpInsertBytes (length s) [x]).
-Proof. reflexivity. Qed.
-Lemma known_pushb s b : known_class (cap T) R s (OpPushBytes b) = known_class (cap T) R s (OpInsertBytes (length s) b).
-Proof. reflexivity. Qed.
-Lemma known_ins s i x : known_class (cap T) R s (OpInsert i x) = known_class (cap T) R s (OpInsertBytes i [x]).
-Proof. reflexivity. Qed.
+Lemma spec_err_short c (t : str) : length t <= c -> spec_err c t = InvalidContent.
+Proof. intros H. unfold spec_err. assert (Nat.ltb c (length t) = false) as -> by lia. reflexivity. Qed.
 
-Theorem sem_apply_refines s o : R s = true -> known_class (cap T) R s o = false ->
-  sem_apply T s o = gspec_apply (cap T) R s o.
+(* the refinement: the code does what the spec says, for every mutator and every argument *)
+Theorem sem_apply_refines s o : R s = true -> sem_apply T s o = gspec_apply (cap T) R s o.
 Proof.
-  intros V K. pose proof (R_len s V) as Ls.
+  intros V. pose proof (R_len s V) as Ls.
   destruct o as [x|b|i x|i b| |i|i n|p|b|b|n]; cbn [sem_apply gspec_apply].
-  - rewrite known_push in K. unfold sem_push, sem_insert. now apply refine_insert.
-  - rewrite known_pushb in K. unfold sem_push_bytes. now apply refine_insert.
-  - rewrite known_ins in K. unfold sem_insert. now apply refine_insert.
+  - unfold sem_push, sem_insert. now apply refine_insert.
+  - unfold sem_push_bytes. now apply refine_insert.
+  - unfold sem_insert. now apply refine_insert.
   - now apply refine_insert.
-  - rewrite sem_pop_eq by auto. destruct s as [|c s']; [reflexivity|].
+  - rewrite sem_pop_eq. destruct s as [|c s']; [reflexivity|].
     rewrite sem_remove_eq by auto. unfold gcommit.
     destruct (Nat.leb (length (c :: s')) (length (c :: s') - 1)); [reflexivity|].
-    set (cand := firstn _ _ ++ skipn _ _).
-    destruct (R cand) eqn:Rc; cbn [lift]; auto.
-    unfold spec_err. assert (Nat.ltb (cap T) (length cand) = false) as ->; auto.
-    unfold cand. rewrite app_length, firstn_length, skipn_length. lia.
+    caseR; cbn [lift]; auto. rewrite spec_err_short; auto.
+    rewrite app_length, firstn_length, skipn_length. lia.
   - rewrite sem_remove_eq by auto. unfold gcommit.
     destruct (Nat.leb (length s) i) eqn:Li; [reflexivity|].
-    set (cand := firstn _ _ ++ skipn _ _).
-    destruct (R cand) eqn:Rc; cbn [lift]; auto.
-    unfold spec_err. assert (Nat.ltb (cap T) (length cand) = false) as ->; auto.
-    unfold cand. rewrite app_length, firstn_length, skipn_length. lia.
+    caseR; cbn [lift]; auto. rewrite spec_err_short; auto.
+    rewrite app_length, firstn_length, skipn_length. lia.
   - rewrite sem_remove_range_eq by auto. unfold gcommit.
     destruct (Nat.ltb (length s) (i + n)) eqn:Li; [reflexivity|].
-    destruct (Nat.eqb n 0 && Nat.eqb (length s) (cap T))%bool eqn:Z.
-    + exfalso. unfold known_class, full_zero_class in K.
-      assert (Nat.leb i (length s) = true) as E by lia.
-      apply andb_true_iff in Z as [Z1 Z2]. rewrite Z1, Z2, E in K. killK K.
-    + set (cand := firstn _ _ ++ skipn _ _).
-      destruct (R cand) eqn:Rc; cbn [lift]; auto.
-      unfold spec_err. assert (Nat.ltb (cap T) (length cand) = false) as ->; auto.
-      unfold cand. rewrite app_length, firstn_length, skipn_length. lia.
+    caseR; cbn [lift]; auto. rewrite spec_err_short; auto.
+    rewrite app_length, firstn_length, skipn_length. lia.
   - rewrite sem_retain_eq by auto. unfold gcommit.
-    set (cand := filter _ _).
-    destruct (R cand) eqn:Rc; cbn [lift]; auto.
-    unfold spec_err. assert (Nat.ltb (cap T) (length cand) = false) as ->; auto.
-    pose proof (filter_len_le (fun x => negb (retpred_fn p x)) s). fold cand in H. lia.
+    caseR; cbn [lift]; auto. rewrite spec_err_short; auto.
+    pose proof (filter_len_le (fun x => negb (retpred_fn p x)) s). lia.
   - rewrite sem_strip_prefix_eq by auto. unfold gcommit, is_prefix.
     destruct (starts_with b s) eqn:P; [|reflexivity].
-    destruct (Nat.eqb (length b) 0 && Nat.eqb (length s) (cap T))%bool eqn:Z.
-    + exfalso. unfold known_class, full_zero_class in K.
-      apply andb_true_iff in Z as [Z1 Z2]. rewrite Z1, Z2 in K. killK K.
-    + destruct (R (skipn (length b) s)) eqn:Rc; cbn [lift]; auto.
-      destruct (Nat.ltb LOG_STRING_CAP (length b)) eqn:LB.
-      * exfalso. unfold known_class, log_buffer_class, is_prefix in K. rewrite LB, P, Rc in K. killK K.
-      * cbn [lift]. unfold spec_err.
-        assert (Nat.ltb (cap T) (length (skipn (length b) s)) = false) as ->; auto.
-        rewrite skipn_length. lia.
+    caseR; cbn [lift]; auto. rewrite spec_err_short; auto. rewrite skipn_length. lia.
   - rewrite sem_strip_suffix_eq by auto. unfold gcommit.
     destruct (is_suffix b s) eqn:P; [|reflexivity].
-    destruct (Nat.eqb (length b) 0 && Nat.eqb (length s) (cap T))%bool eqn:Z.
-    + exfalso. unfold known_class, full_zero_class in K.
-      apply andb_true_iff in Z as [Z1 Z2]. rewrite Z1, Z2 in K. killK K.
-    + destruct (R (firstn (length s - length b) s)) eqn:Rc; cbn [lift]; auto.
-      destruct (Nat.ltb LOG_STRING_CAP (length b)) eqn:LB.
-      * exfalso. unfold known_class, log_buffer_class in K. rewrite LB, P, Rc in K. killK K.
-      * cbn [lift]. unfold spec_err.
-        assert (Nat.ltb (cap T) (length (firstn (length s - length b) s)) = false) as ->; auto.
-        rewrite firstn_length. lia.
+    caseR; cbn [lift]; auto. rewrite spec_err_short; auto. rewrite firstn_length. lia.
   - rewrite sem_truncate_eq by auto. unfold gcommit.
     destruct (Nat.ltb (length s) n) eqn:Ln; [reflexivity|].
-    destruct (R (firstn n s)) eqn:Rc; cbn [lift]; auto.
-    unfold spec_err. assert (Nat.ltb (cap T) (length (firstn n s)) = false) as ->; auto.
-    rewrite firstn_length. lia.
+    caseR; cbn [lift]; auto. rewrite spec_err_short; auto. rewrite firstn_length. lia.
 Qed.
 
-(* every mutator, known classes included: a valid value stays valid or is unchanged
-   (the only other outcome is a panic, which leaves self untouched: all work is on a copy) *)
+(* the spec itself keeps a valid value valid, and leaves it unchanged on an error *)
+Lemma gcommit_preserves c s cand ok s' r : R s = true -> (forall e, ok <> ObErr e) ->
+  gcommit c R s cand ok = Val (s', r) -> match r with ObErr _ => s' = s | _ => R s' = true end.
+Proof.
+  intros V Hok. unfold gcommit. destruct (R cand) eqn:Rc; intros E; inversion E; subst; auto.
+  destruct r; auto. exfalso. eapply Hok. reflexivity.
+Qed.
+
 Theorem sem_apply_preserves s o s' r : R s = true -> sem_apply T s o = Val (s', r) ->
   match r with ObErr _ => s' = s | _ => R s' = true end.
 Proof.
-  intros V. pose proof (R_len s V) as Ls.
-  assert (INS : forall i b, lift (fun _ : unit => ObUnit) (sem_insert_bytes T s i b) = Val (s', r) ->
-                match r with ObErr _ => s' = s | _ => R s' = true end).
-  { intros i b. destruct (Nat.ltb (length s) i) eqn:Li.
-    - rewrite sem_insert_bytes_oob by lia. discriminate.
-    - rewrite sem_insert_bytes_eq by (auto; lia).
-      destruct (R (firstn i s ++ b ++ skipn i s)) eqn:Rc; cbn [lift]; inv_val; auto. }
-  destruct o as [x|b|i x|i b| |i|i n|p|b|b|n]; cbn [sem_apply]; try (apply INS).
-  - rewrite sem_pop_eq by auto. destruct s as [|c s0]; [cbn [lift]; inv_val; auto|].
-    rewrite sem_remove_eq by auto.
-    destruct (Nat.leb _ _); [cbn [lift]; inv_val; auto|].
-    caseR; cbn [lift]; inv_val; auto.
-  - rewrite sem_remove_eq by auto.
-    destruct (Nat.leb _ _); [cbn [lift]; inv_val; auto|].
-    caseR; cbn [lift]; inv_val; auto.
-  - rewrite sem_remove_range_eq by auto.
-    destruct (Nat.ltb _ _); [cbn [lift]; inv_val; auto|].
-    destruct (_ && _)%bool; [discriminate|].
-    caseR; cbn [lift]; inv_val; auto.
-  - rewrite sem_retain_eq by auto.
-    caseR; cbn [lift]; inv_val; auto.
-  - rewrite sem_strip_prefix_eq by auto.
-    destruct (starts_with b s); [|cbn [lift]; inv_val; auto].
-    destruct (_ && _)%bool; [discriminate|].
-    caseR; [cbn [lift]; inv_val; auto|].
-    destruct (Nat.ltb _ _); [discriminate|]. cbn [lift]; inv_val; auto.
-  - rewrite sem_strip_suffix_eq by auto.
-    destruct (is_suffix b s); [|cbn [lift]; inv_val; auto].
-    destruct (_ && _)%bool; [discriminate|].
-    caseR; [cbn [lift]; inv_val; auto|].
-    destruct (Nat.ltb _ _); [discriminate|]. cbn [lift]; inv_val; auto.
-  - rewrite sem_truncate_eq by auto.
-    destruct (Nat.ltb _ _); [cbn [lift]; inv_val; auto|].
-    caseR; cbn [lift]; inv_val; auto.
+  intros V. rewrite sem_apply_refines by auto.
+  assert (U : forall e, ObUnit <> ObErr e) by (intros; discriminate).
+  assert (B : forall b e, ObBool b <> ObErr e) by (intros; discriminate).
+  assert (O : forall o e, ObOptByte o <> ObErr e) by (intros; discriminate).
+  assert (ID : forall ok, (forall e, ok <> ObErr e) -> Val (s, ok) = Val (s', r) ->
+               match r with ObErr _ => s' = s | _ => R s' = true end).
+  { intros ok Hok E. inversion E; subst. destruct r; auto. }
+  destruct o as [x|b|i x|i b| |i|i n|p|b|b|n]; cbn [gspec_apply]; intros E;
+    repeat match type of E with
+           | context[if ?c then _ else _] => destruct c
+           | context[match ?l with [] => _ | _ :: _ => _ end] => destruct l
+           end;
+    try discriminate E;
+    first [ eapply gcommit_preserves in E; [exact E | exact V | intros; discriminate]
+          | eapply ID; [|exact E]; intros; discriminate ].
 Qed.
 
-(* exactly when a mutator panics *)
+(* a mutator panics exactly for an insert index beyond the end *)
 Theorem sem_apply_panics s o : R s = true ->
   (sem_apply T s o = Panic <->
-   (match inserted_bytes s o with Some (i, _) => length s < i | None => False end) \/
-   full_zero_class (cap T) s o = true \/ log_buffer_class R s o = true).
+   match inserted_bytes s o with Some (i, _) => length s < i | None => False end).
 Proof.
-  intros V. pose proof (R_len s V) as Ls.
-  assert (INS : forall i b, (lift (fun _ : unit => ObUnit) (sem_insert_bytes T s i b) = Panic <-> length s < i)).
-  { intros i b. destruct (Nat.ltb (length s) i) eqn:Li.
-    - rewrite sem_insert_bytes_oob by lia. split; auto. lia.
-    - rewrite sem_insert_bytes_eq by (auto; lia).
-      caseR; cbn [lift]; split; try discriminate; lia. }
-  unfold full_zero_class, log_buffer_class.
-  destruct o as [x|b|i x|i b| |i|i n|p|b|b|n]; cbn [sem_apply inserted_bytes];
-    try (unfold sem_push, sem_push_bytes, sem_insert; rewrite INS, andb_false_r; intuition (try discriminate; lia)).
-  - rewrite sem_pop_eq by auto. rewrite andb_false_r. destruct s as [|c s0]; [cbn [lift]; intuition discriminate|].
-    rewrite sem_remove_eq by auto.
-    destruct (Nat.leb _ _); [cbn [lift]; intuition discriminate|].
-    caseR; cbn [lift]; intuition discriminate.
-  - rewrite sem_remove_eq by auto. rewrite andb_false_r.
-    destruct (Nat.leb _ _); [cbn [lift]; intuition discriminate|].
-    caseR; cbn [lift]; intuition discriminate.
-  - rewrite sem_remove_range_eq by auto.
-    destruct (Nat.ltb (length s) (i + n)) eqn:Li.
-    + cbn [lift]. split; [discriminate|]. intros [[]|[H|H]]; try discriminate.
-      apply andb_true_iff in H as [H1 H2]. apply andb_true_iff in H2 as [H2 H3]. lia.
-    + destruct (Nat.eqb n 0) eqn:N0, (Nat.eqb (length s) (cap T)) eqn:Full; cbn [andb].
-      * cbn [lift]. split; auto. intros _. right; left. assert (Nat.leb i (length s) = true) as -> by lia. reflexivity.
-      * caseR; cbn [lift]; intuition discriminate.
-      * caseR; cbn [lift]; intuition discriminate.
-      * caseR; cbn [lift]; intuition discriminate.
-  - rewrite sem_retain_eq by auto. rewrite andb_false_r.
-    caseR; cbn [lift]; intuition discriminate.
-  - rewrite sem_strip_prefix_eq by auto. unfold is_prefix.
-    destruct (starts_with b s) eqn:P.
-    + destruct (Nat.eqb (length b) 0) eqn:B0, (Nat.eqb (length s) (cap T)) eqn:Full; cbn [andb].
-      * cbn [lift]. intuition.
-      * caseR; cbn [lift negb]; [rewrite andb_false_r; intuition discriminate|].
-        assert (Nat.ltb LOG_STRING_CAP (length b) = false) as -> by (unfold LOG_STRING_CAP; lia).
-        cbn [lift andb]. intuition discriminate.
-      * caseR; cbn [lift negb]; [rewrite andb_false_r; intuition discriminate|].
-        destruct (Nat.ltb LOG_STRING_CAP (length b)); cbn [lift andb]; intuition discriminate.
-      * caseR; cbn [lift negb]; [rewrite andb_false_r; intuition discriminate|].
-        destruct (Nat.ltb LOG_STRING_CAP (length b)); cbn [lift andb]; intuition discriminate.
-    + cbn [lift]. rewrite andb_false_r. cbn [andb]. split; [discriminate|].
-      intros [[]|[H|H]]; try discriminate.
-      apply andb_true_iff in H as [H1 H2]. apply Nat.eqb_eq in H2.
-      destruct b; [cbn in P; discriminate | cbn in H2; lia].
-  - rewrite sem_strip_suffix_eq by auto.
-    destruct (is_suffix b s) eqn:P.
-    + destruct (Nat.eqb (length b) 0) eqn:B0, (Nat.eqb (length s) (cap T)) eqn:Full; cbn [andb].
-      * cbn [lift]. intuition.
-      * caseR; cbn [lift negb]; [rewrite andb_false_r; intuition discriminate|].
-        assert (Nat.ltb LOG_STRING_CAP (length b) = false) as -> by (unfold LOG_STRING_CAP; lia).
-        cbn [lift andb]. intuition discriminate.
-      * caseR; cbn [lift negb]; [rewrite andb_false_r; intuition discriminate|].
-        destruct (Nat.ltb LOG_STRING_CAP (length b)); cbn [lift andb]; intuition discriminate.
-      * caseR; cbn [lift negb]; [rewrite andb_false_r; intuition discriminate|].
-        destruct (Nat.ltb LOG_STRING_CAP (length b)); cbn [lift andb]; intuition discriminate.
-    + cbn [lift]. rewrite andb_false_r. cbn [andb]. split; [discriminate|].
-      intros [[]|[H|H]]; try discriminate.
-      apply andb_true_iff in H as [H1 H2]. apply Nat.eqb_eq in H2.
-      destruct b; [|cbn in H2; lia]. exfalso.
-      assert (is_suffix [] s = true); [|congruence]. apply is_suffix_iff. exists s. now rewrite app_nil_r.
-  - rewrite sem_truncate_eq by auto. rewrite andb_false_r.
-    destruct (Nat.ltb _ _); [cbn [lift]; intuition discriminate|].
-    caseR; cbn [lift]; intuition discriminate.
+  intros V. rewrite sem_apply_refines by auto.
+  assert (G : forall cand ok, gcommit (cap T) R s cand ok <> Panic).
+  { intros cand ok. unfold gcommit. destruct (R cand); discriminate. }
+  destruct o as [x|b|i x|i b| |i|i n|p|b|b|n]; cbn [gspec_apply inserted_bytes].
+  1-4: match goal with |- context[Nat.ltb ?a ?b] => destruct (Nat.ltb a b) eqn:L end;
+       split; intros H; try lia; try reflexivity; try (exfalso; eapply G; eassumption).
+  all: split; [|tauto]; intros H; exfalso;
+       repeat match goal with
+              | H : context[if ?c then _ else _] |- _ => destruct c
+              | H : context[match ?s with [] => _ | _ => _ end] |- _ => destruct s
+              end; try discriminate; try (eapply G; eassumption).
 Qed.
 
 End Generic.
@@ -924,36 +756,28 @@ Proof.
 Qed.
 
 (* ---------------------------------------------------------------------------------- *)
+
+(* ---------------------------------------------------------------------------------- *)
 (* Part 3: the property-level statements for the concrete types *)
-Definition wf_ty (t : ty) : Prop := 1 <= cap_of t.   (* static_assert_ge!(CAPACITY, 1) *)
+Theorem new_eq t b :
+  sem_new (sty_of t) b = if rules_of t b then Val (inl b) else Val (inr (spec_err (cap_of t) b)).
+Proof. apply (sem_new_eq (sty_of t) (rules_of t) (rules_of_gen t)). Qed.
 
-Theorem new_eq t b : wf_ty t ->
-  sem_new (sty_of t) b = if rules_of t b then Val (inl b) else Val (inr (ins_err (sty_of t) [] b)).
-Proof. intros W. apply (sem_new_eq (sty_of t) (rules_of t) (rules_of_gen t)). exact W. Qed.
-
-Theorem accept_iff t b : wf_ty t ->
+Theorem accept_iff t b :
   (sem_new (sty_of t) b = Val (inl b) <-> rules_of t b = true) /\
   (forall s, sem_new (sty_of t) b = Val (inl s) -> s = b) /\
   sem_new (sty_of t) b <> Panic.
 Proof.
-  intros W. rewrite (new_eq t b W). destruct (rules_of t b); repeat split; try congruence; try discriminate.
+  rewrite (new_eq t b). destruct (rules_of t b); repeat split; try congruence; try discriminate.
   all: try (intros s [= ->]; reflexivity).
 Qed.
 
-Theorem new_matches_spec t b : wf_ty t -> err_kind_class (cap_of t) [] (OpPushBytes b) = false ->
-  sem_new (sty_of t) b = spec_new t b.
-Proof.
-  intros W K. rewrite (new_eq t b W). unfold spec_new. destruct (rules_of t b) eqn:Rb; [reflexivity|].
-  unfold ins_err, spec_err, cap_of. cbn [length Nat.add].
-  unfold err_kind_class in K. cbn [inserted_bytes length Nat.add Nat.leb] in K.
-  destruct (Nat.ltb (cap (sty_of t)) (length b)) eqn:L; cbn [orb]; [reflexivity|].
-  assert (Nat.leb (length b) (cap_of t) = true) as E by (unfold cap_of; lia). rewrite E in K. cbn [andb] in K.
-  now rewrite K.
-Qed.
+(* the constructor is the spec constructor, error kind included *)
+Theorem new_matches_spec t b : sem_new (sty_of t) b = spec_new t b.
+Proof. rewrite new_eq. reflexivity. Qed.
 
-Theorem mutators_refine t s o : rules_of t s = true -> known_class (cap_of t) (rules_of t) s o = false ->
-  sem_apply (sty_of t) s o = spec_apply t s o.
-Proof. intros V K. apply (sem_apply_refines (sty_of t) (rules_of t) (rules_of_gen t)); auto. Qed.
+Theorem mutators_refine t s o : rules_of t s = true -> sem_apply (sty_of t) s o = spec_apply t s o.
+Proof. intros V. apply (sem_apply_refines (sty_of t) (rules_of t) (rules_of_gen t)); auto. Qed.
 
 Theorem mutators_preserve t s o s' r : rules_of t s = true -> sem_apply (sty_of t) s o = Val (s', r) ->
   match r with ObErr _ => s' = s | _ => rules_of t s' = true end.
@@ -961,8 +785,7 @@ Proof. apply (sem_apply_preserves (sty_of t) (rules_of t) (rules_of_gen t)). Qed
 
 Theorem mutators_panic_iff t s o : rules_of t s = true ->
   (sem_apply (sty_of t) s o = Panic <->
-   (match inserted_bytes s o with Some (i, _) => length s < i | None => False end) \/
-   full_zero_class (cap_of t) s o = true \/ log_buffer_class (rules_of t) s o = true).
+   match inserted_bytes s o with Some (i, _) => length s < i | None => False end).
 Proof. apply (sem_apply_panics (sty_of t) (rules_of t) (rules_of_gen t)). Qed.
 
 (* ---- file names are safe path components ---- *)
@@ -1062,14 +885,16 @@ Proof. unfold path_rules. intros H. apply andb_true_iff in H as [H1 H2]. split; 
 
 Lemma push_chain s b : path_rules s = true -> forallb path_allowed b = true ->
   (length s + length b <= 255 -> sem_push_bytes PathT s b = Val (s ++ b, inl tt) /\ path_rules (s ++ b) = true) /\
-  (255 < length s + length b -> exists e, sem_push_bytes PathT s b = Val (s, inr e)).
+  (255 < length s + length b -> sem_push_bytes PathT s b = Val (s, inr ExceedsMaximumLength)).
 Proof.
   intros V Cb. destruct (path_rules_facts s V) as [Ls Cs].
   unfold sem_push_bytes. rewrite (sem_insert_bytes_eq PathT path_rules gen_rules_path) by auto.
   rewrite firstn_all, skipn_all, app_nil_r, path_rules_app, Cs, Cb, !andb_true_r.
   split; intros H.
   - assert (Nat.leb (length s + length b) 255 = true) as -> by lia. auto.
-  - assert (Nat.leb (length s + length b) 255 = false) as -> by lia. eauto.
+  - assert (Nat.leb (length s + length b) 255 = false) as -> by lia.
+    unfold spec_err. rewrite app_length. cbn [cap PathT]. unfold PATH_LENGTH.
+    assert (Nat.ltb 255 (length s + length b) = true) as -> by lia. reflexivity.
 Qed.
 
 Definition with_sep (hint : str) : str :=
@@ -1095,7 +920,7 @@ Proof. intros H. unfold with_sep. destruct (_ && _)%bool; auto. rewrite forallb_
 Lemma add_entry_eq hint e : path_rules hint = true -> forallb path_allowed e = true ->
   (length (with_sep hint) + length e <= 255 ->
      path_add_path_entry hint e = Val (with_sep hint ++ e, inl tt) /\ path_rules (with_sep hint ++ e) = true) /\
-  (255 < length (with_sep hint) + length e -> exists s1 err, path_add_path_entry hint e = Val (s1, inr err)).
+  (255 < length (with_sep hint) + length e -> path_add_path_entry hint e = Val (hint, inr ExceedsMaximumLength)).
 Proof.
   intros V Ce. unfold path_add_path_entry, with_sep.
   destruct (nonempty hint && negb (N.eqb (last hint 0%N) SEP))%bool.
@@ -1105,10 +930,54 @@ Proof.
     destruct (le_lt_dec (length hint + 1) 255) as [F1|F1].
     + destruct (A1 F1) as [-> V1].
       destruct (push_chain (hint ++ [SEP]) e V1 Ce) as [B1 B2]. rewrite app_length in B1, B2. cbn [length] in B1, B2.
-      split; intros H; [apply B1; lia|]. destruct (B2 H) as [err ->]. eauto.
-    + destruct (A2 F1) as [err ->]. split; intros H; [lia|eauto].
+      split; intros H.
+      * destruct (B1 ltac:(lia)) as [-> V2]. auto.
+      * rewrite (B2 H). reflexivity.
+    + rewrite (A2 F1). split; intros H; [lia|reflexivity].
   - destruct (push_chain hint e V Ce) as [B1 B2].
-    split; intros H; [apply B1; lia|]. destruct (B2 H) as [err ->]. eauto.
+    split; intros H.
+    + destruct (B1 ltac:(lia)) as [-> V2]. auto.
+    + rewrite (B2 H). reflexivity.
+Qed.
+
+(* Path::add_path_entry is all or nothing (fix a263455) *)
+Theorem add_path_entry_spec s e : path_rules s = true -> path_rules e = true ->
+  lift (fun _ : unit => ObUnit) (path_add_path_entry s e) = spec_add_path_entry s e.
+Proof.
+  intros V Ve. destruct (path_rules_facts e Ve) as [Le Ce]. destruct (path_rules_facts s V) as [Ls Cs].
+  destruct (add_entry_eq s e V Ce) as [A1 A2].
+  unfold spec_add_path_entry. rewrite spec_join_with_sep.
+  destruct (le_lt_dec (length (with_sep s) + length e) 255) as [F|F].
+  - destruct (A1 F) as [-> V2]. rewrite V2. reflexivity.
+  - rewrite (A2 F). cbn [lift].
+    assert (path_rules (with_sep s ++ e) = false) as ->.
+    { unfold path_rules. rewrite app_length. assert (Nat.leb (length (with_sep s) + length e) 255 = false) as -> by lia. reflexivity. }
+    unfold spec_err. rewrite app_length. assert (Nat.ltb 255 (length (with_sep s) + length e) = true) as -> by lia. reflexivity.
+Qed.
+
+(* FilePath::from_path_and_file: the concatenation whenever it fits, never a panic *)
+Lemma match_ne {A B} (l : list A) (a b : B) : l <> [] -> match l with [] => a | _ :: _ => b end = b.
+Proof. destruct l; [contradiction|reflexivity]. Qed.
+Lemma nonempty_ne (l : str) : l <> [] -> nonempty l = true.
+Proof. destruct l; [contradiction|reflexivity]. Qed.
+Theorem from_path_and_file_spec p f : fp_from_path_and_file p f = spec_from_path_and_file p f.
+Proof.
+  unfold fp_from_path_and_file, spec_from_path_and_file, PATH_LENGTH.
+  destruct (list_eq_dec N.eq_dec p []) as [->|NE].
+  - cbn [nonempty andb app length Nat.add]. rewrite Nat.add_0_r.
+    destruct (Nat.ltb 255 (length f)) eqn:L.
+    + assert (Nat.leb (length f) 255 = false) as -> by lia. reflexivity.
+    + assert (Nat.leb (length f) 255 = true) as -> by lia. reflexivity.
+  - rewrite match_ne, nonempty_ne by auto. cbn [andb].
+    destruct (N.eqb (last p 0%N) SEP); cbn [negb].
+    + rewrite Nat.add_0_r, app_length. cbn [app].
+      destruct (Nat.ltb 255 (length p + length f)) eqn:L.
+      * assert (Nat.leb (length p + length f) 255 = false) as -> by lia. reflexivity.
+      * assert (Nat.leb (length p + length f) 255 = true) as -> by lia. reflexivity.
+    + rewrite app_length. cbn [length app].
+      destruct (Nat.ltb 255 (length p + length f + 1)) eqn:L.
+      * assert (Nat.leb (length p + S (length f)) 255 = false) as -> by lia. reflexivity.
+      * assert (Nat.leb (length p + S (length f)) 255 = true) as -> by lia. reflexivity.
 Qed.
 
 Lemma two_pushes p1 n suf : path_rules p1 = true -> forallb path_allowed n = true -> forallb path_allowed suf = true ->
@@ -1124,15 +993,20 @@ Proof.
     destruct (le_lt_dec (length p1 + length n + length suf) 255) as [F2|F2].
     + destruct (B1 F2) as [-> _]. assert (Nat.leb (length p1 + length n + length suf) 255 = true) as -> by lia.
       now rewrite <- app_assoc.
-    + destruct (B2 F2) as [err ->]. assert (Nat.leb (length p1 + length n + length suf) 255 = false) as -> by lia. reflexivity.
-  - destruct (A2 F1) as [err ->]. assert (Nat.leb (length p1 + length n + length suf) 255 = false) as -> by lia. reflexivity.
+    + rewrite (B2 F2). assert (Nat.leb (length p1 + length n + length suf) 255 = false) as -> by lia. reflexivity.
+  - rewrite (A2 F1). assert (Nat.leb (length p1 + length n + length suf) 255 = false) as -> by lia. reflexivity.
 Qed.
 
-Theorem nc_path_for_eq c n : valid_cfg c -> filename_rules n = true -> nc_path_for c n = spec_path_for c n.
+(* what FilePath::file_name() / Path::entries() can hand out through FileName::new_unchecked:
+   non-empty, separator-free, made of path characters -- but possibly ".", ".." or with
+   bytes a FileName forbids (backslash) *)
+Definition unchecked_fn (s : str) : Prop := s <> [] /\ nosep s = true /\ forallb path_allowed s = true.
+Definition unchecked_cfg (c : ncfg) : Prop :=
+  unchecked_fn (prefix c) /\ unchecked_fn (suffix c) /\ path_rules (path_hint c) = true.
+
+Theorem nc_path_for_eq_unchecked c n : unchecked_cfg c -> unchecked_fn n -> nc_path_for c n = spec_path_for c n.
 Proof.
-  intros [Vp [Vs Vh]] Vn.
-  destruct (filename_facts _ Vp) as [Lp _ Cp _ _ _]. destruct (filename_facts _ Vs) as [Lsf _ Cs _ _ _].
-  destruct (filename_facts _ Vn) as [Ln _ Cn _ _ _].
+  intros [[_ [_ Cp]] [[_ [_ Cs]] Vh]] [_ [_ Cn]].
   unfold spec_path_for. rewrite spec_join_with_sep. unfold nc_path_for.
   destruct (add_entry_eq (path_hint c) (prefix c) Vh Cp) as [A1 A2].
   rewrite !app_length.
@@ -1141,10 +1015,18 @@ Proof.
     replace (length (with_sep (path_hint c)) + length (prefix c) + length n + length (suffix c))
       with (length (with_sep (path_hint c)) + (length (prefix c) + (length n + length (suffix c)))) by lia.
     destruct (Nat.leb _ 255); [|reflexivity]. now rewrite <- app_assoc.
-  - destruct (A2 F1) as [s1 [err ->]].
+  - rewrite (A2 F1).
     assert (Nat.leb (length (with_sep (path_hint c)) + (length (prefix c) + (length n + length (suffix c)))) 255 = false) as -> by lia.
     reflexivity.
 Qed.
+
+Lemma filename_unchecked s : filename_rules s = true -> unchecked_fn s.
+Proof. intros H. destruct (filename_facts s H). repeat split; auto. Qed.
+Lemma valid_cfg_unchecked c : valid_cfg c -> unchecked_cfg c.
+Proof. intros [Vp [Vs Vh]]. repeat split; auto; apply filename_unchecked; auto. Qed.
+
+Theorem nc_path_for_eq c n : valid_cfg c -> filename_rules n = true -> nc_path_for c n = spec_path_for c n.
+Proof. intros V Vn. apply nc_path_for_eq_unchecked; [apply valid_cfg_unchecked | apply filename_unchecked]; auto. Qed.
 
 Lemma component_ok_app a b : a <> [] -> b <> [] -> (component_ok a = true \/ component_ok b = true) ->
   component_ok (a ++ b) = true.
@@ -1195,23 +1077,39 @@ Proof.
   rewrite split_sep_app_sep. cbn [split_sep]. rewrite filter_app. cbn [filter nonempty]. now rewrite app_nil_r.
 Qed.
 
-Theorem path_for_contained c n p : valid_cfg c -> filename_rules n = true -> nc_path_for c n = Val p ->
+
+Lemma component_ok_long s : 3 <= length s -> component_ok s = true.
+Proof.
+  intros H. unfold component_ok, is_dot_or_dotdot.
+  rewrite !str_eqb_len by (cbn [length]; lia). destruct s; [cbn in H; lia|reflexivity].
+Qed.
+
+(* containment needs much less than valid file names: it already holds for everything the
+   unchecked conversions can produce *)
+Theorem path_for_contained_unchecked c n p : unchecked_cfg c -> unchecked_fn n -> nc_path_for c n = Val p ->
   let comp := prefix c ++ n ++ suffix c in
   p = with_sep (path_hint c) ++ comp /\
-  filename_rules comp = true /\
+  (nosep comp = true /\ component_ok comp = true /\ length comp <= 255) /\
   fp_file_name p = comp /\
   filepath_rules p = true /\
   path_entries p = path_entries (path_hint c) ++ [comp] /\
   same_directory (path_hint c) (fp_path p) = true.
 Proof.
-  intros V Vn E comp. pose proof V as [Vp [Vs Vh]]. rewrite (nc_path_for_eq c n V Vn) in E.
+  intros V Vn E comp. pose proof V as [[NEp [NSp Cp]] [[NEs [NSs Cs]] Vh]]. destruct Vn as [NEn [NSn Cn]].
+  rewrite (nc_path_for_eq_unchecked c n V (conj NEn (conj NSn Cn))) in E.
   unfold spec_path_for in E. rewrite spec_join_with_sep in E. fold comp in E.
   destruct (Nat.leb (length (with_sep (path_hint c) ++ comp)) 255) eqn:Fit; [|discriminate].
   injection E as <-. rewrite app_length in Fit.
-  assert (Vc : filename_rules comp = true) by (apply comp_valid; auto; fold comp; lia).
-  destruct (filename_facts _ Vc) as [Lc Cc PCc NSc COc NEc].
+  assert (NSc : nosep comp = true) by (unfold comp; repeat apply nosep_app; auto).
+  assert (PCc : forallb path_allowed comp = true) by (unfold comp; rewrite !forallb_app, Cp, Cn, Cs; reflexivity).
+  assert (L3 : 3 <= length comp).
+  { unfold comp. rewrite !app_length. destruct (prefix c), n, (suffix c); try contradiction; cbn [length]; lia. }
+  assert (COc : component_ok comp = true) by (apply component_ok_long; auto).
+  assert (NEc : comp <> []) by (intros E0; rewrite E0 in L3; cbn [length] in L3; inversion L3).
+  clearbody comp. clear NEp NSp Cp NEs NSs Cs NEn NSn Cn V.
+  assert (Lc : length comp <= 255) by (clear - Fit; lia).
   destruct (path_rules_facts _ Vh) as [Lh Ch].
-  split; [reflexivity|]. split; [exact Vc|].
+  split; [reflexivity|]. split; [auto|].
   assert (FR : forall q, forallb path_allowed q = true -> length (q ++ comp) <= 255 ->
                     last_component (q ++ comp) = comp -> filepath_rules (q ++ comp) = true).
   { intros q Cq Lq LC. unfold filepath_rules. rewrite LC, COc, forallb_app, Cq, PCc.
@@ -1246,72 +1144,118 @@ Proof.
       rewrite path_normalize_trailing_sep by discriminate. apply str_eqb_refl.
 Qed.
 
-(* ---- extract_name_from_file ---- *)
-(* the files on which the code panics instead of answering None: what is left after the
-   prefix (or after prefix and suffix) is not a file name *)
-Definition stray_class (c : ncfg) (f : str) : bool :=
-  is_prefix (prefix c) f &&
-  (let rest := skipn (length (prefix c)) f in
-   negb (filename_rules rest) ||
-   (is_suffix (suffix c) rest && negb (filename_rules (firstn (length rest - length (suffix c)) rest)))).
-
-Ltac caseFR := match goal with |- context[if filename_rules ?x then _ else _] => destruct (filename_rules x) end.
-Lemma nonempty_len (s : str) : s <> [] -> Nat.eqb (length s) 0 = false.
-Proof. destruct s; [contradiction|reflexivity]. Qed.
-
-Theorem nc_extract_eq c f : valid_cfg c -> filename_rules f = true ->
-  nc_extract_name_from_file c f =
-    if is_prefix (prefix c) f then
-      let rest := skipn (length (prefix c)) f in
-      if filename_rules rest then
-        if is_suffix (suffix c) rest then
-          let mid := firstn (length rest - length (suffix c)) rest in
-          if filename_rules mid then Val (Some mid) else Panic
-        else Val None
-      else Panic
-    else Val None.
+Theorem path_for_contained c n p : valid_cfg c -> filename_rules n = true -> nc_path_for c n = Val p ->
+  let comp := prefix c ++ n ++ suffix c in
+  p = with_sep (path_hint c) ++ comp /\
+  filename_rules comp = true /\
+  fp_file_name p = comp /\
+  filepath_rules p = true /\
+  path_entries p = path_entries (path_hint c) ++ [comp] /\
+  same_directory (path_hint c) (fp_path p) = true.
 Proof.
-  intros [Vp [Vs Vh]] Vf.
-  destruct (filename_facts _ Vp) as [_ _ _ _ _ NEp]. destruct (filename_facts _ Vs) as [_ _ _ _ _ NEs].
-  unfold nc_extract_name_from_file, is_prefix.
-  rewrite (sem_strip_prefix_eq FileNameT filename_rules gen_rules_filename) by auto.
-  destruct (starts_with (prefix c) f); [|reflexivity].
-  rewrite (nonempty_len _ NEp). cbn [andb].
-  destruct (filename_rules (skipn (length (prefix c)) f)) eqn:Vr.
-  - cbn zeta. rewrite (sem_strip_suffix_eq FileNameT filename_rules gen_rules_filename) by auto.
-    destruct (is_suffix (suffix c) (skipn (length (prefix c)) f)); [|reflexivity].
-    rewrite (nonempty_len _ NEs). cbn [andb].
-    caseFR; [reflexivity|].
-    destruct (Nat.ltb LOG_STRING_CAP (length (suffix c))); reflexivity.
-  - cbn zeta. destruct (Nat.ltb LOG_STRING_CAP (length (prefix c))); reflexivity.
+  intros V Vn E comp. pose proof V as [Vp [Vs Vh]].
+  destruct (path_for_contained_unchecked c n p (valid_cfg_unchecked c V) (filename_unchecked n Vn) E)
+    as [E1 [[_ [_ Lc]] [E3 [E4 [E5 E6]]]]].
+  repeat split; auto. apply comp_valid; auto.
 Qed.
 
-Theorem nc_extract_refines c f : valid_cfg c -> filename_rules f = true -> stray_class c f = false ->
-  nc_extract_name_from_file c f = spec_extract_name_from_file c f.
+(* ---- what the unchecked conversions produce ---- *)
+Lemma fp_file_name_last s : fp_file_name s = last_component s.
 Proof.
-  intros V Vf K. rewrite nc_extract_eq by auto. unfold spec_extract_name_from_file, stray_class in *.
-  destruct (is_prefix (prefix c) f); [|reflexivity]. cbn [andb] in K. cbn zeta in *.
-  destruct (filename_rules (skipn (length (prefix c)) f)); cbn [negb orb] in K; [|discriminate].
-  destruct (is_suffix (suffix c) (skipn (length (prefix c)) f)); [|reflexivity]. cbn [andb] in K.
-  caseFR; [reflexivity|discriminate].
+  unfold fp_file_name. destruct (sep_decomp s) as [H|[p [f [-> H]]]].
+  - now rewrite split_last_nosep, last_component_nosep.
+  - now rewrite split_last_decomp, last_component_decomp.
 Qed.
-Theorem nc_extract_panic_iff c f : valid_cfg c -> filename_rules f = true ->
-  (nc_extract_name_from_file c f = Panic <-> stray_class c f = true).
+Lemma split_sep_props (P : N -> bool) s : forallb P s = true ->
+  Forall (fun e => nosep e = true /\ forallb P e = true /\ length e <= length s) (split_sep s).
 Proof.
-  intros V Vf. rewrite nc_extract_eq by auto. unfold stray_class.
-  destruct (is_prefix (prefix c) f); cbn [andb]; [|split; discriminate]. cbn zeta.
-  destruct (filename_rules (skipn (length (prefix c)) f)); cbn [negb orb]; [|tauto].
-  destruct (is_suffix (suffix c) (skipn (length (prefix c)) f)); cbn [andb]; [|split; discriminate].
-  caseFR; cbn [negb]; split; try discriminate; auto.
+  induction s as [|x t IH]; intros H; cbn [split_sep].
+  - constructor; [|constructor]. repeat split; auto.
+  - cbn [forallb] in H. apply andb_true_iff in H as [H1 H2]. specialize (IH H2).
+    destruct (N.eqb x SEP) eqn:E.
+    + constructor; [repeat split; cbn; auto; lia|].
+      eapply Forall_impl; [|exact IH]. intros e [A [B C]]. repeat split; auto. cbn [length]. lia.
+    + destruct (split_sep t) as [|h r]; [constructor; [|constructor]; unfold nosep; cbn; rewrite E, H1; repeat split; auto; lia|].
+      inversion IH as [|? ? [A [B C]] IHr]; subst. constructor.
+      * unfold nosep in *. cbn [forallb length]. rewrite E, H1, A, B. repeat split; auto. lia.
+      * eapply Forall_impl; [|exact IHr]. intros e [A' [B' C']]. repeat split; auto. cbn [length]. lia.
+Qed.
+Theorem entries_unchecked p e : path_rules p = true -> In e (path_entries p) ->
+  unchecked_fn e /\ length e <= 255.
+Proof.
+  intros V I. destruct (path_rules_facts p V) as [Lp Cp].
+  unfold path_entries in I. apply filter_In in I as [I NE].
+  pose proof (split_sep_props path_allowed p Cp) as F. rewrite Forall_forall in F.
+  destruct (F e I) as [A [B C]]. repeat split; auto; try lia. intros ->. discriminate.
+Qed.
+Theorem file_name_unchecked p : filepath_rules p = true ->
+  unchecked_fn (fp_file_name p) /\ component_ok (fp_file_name p) = true /\ length (fp_file_name p) <= 255.
+Proof.
+  unfold filepath_rules. intros H. apply andb_true_iff in H as [H CO]. apply andb_true_iff in H as [Lp Cp].
+  rewrite fp_file_name_last. pose proof (split_sep_props path_allowed p Cp) as F. rewrite Forall_forall in F.
+  assert (I : In (last_component p) (split_sep p)).
+  { unfold last_component. pose proof (split_sep_nonnil p) as NN.
+    destruct (split_sep p) as [|h r] eqn:E; [contradiction|].
+    rewrite (app_removelast_last [] NN) at 2. apply in_or_app. right. left. reflexivity. }
+  destruct (F _ I) as [A [B C]]. repeat split; auto; try lia.
+  intros E. rewrite E in CO. discriminate.
 Qed.
 
-Lemma skipn_app_exact {A} (a b : list A) : skipn (length a) (a ++ b) = b.
-Proof. rewrite skipn_app, skipn_all, Nat.sub_diag. reflexivity. Qed.
-Lemma firstn_app_exact {A} (a b : list A) : firstn (length (a ++ b) - length b) (a ++ b) = a.
+(* `the unchecked conversions only hand out valid file names' is false ... *)
+Definition unchecked_conversions_full : Prop :=
+  (forall p, filepath_rules p = true -> filename_rules (fp_file_name p) = true) /\
+  (forall p e, path_rules p = true -> In e (path_entries p) -> filename_rules e = true).
+Theorem unchecked_conversions_refuted : ~ unchecked_conversions_full.
+Proof.
+  intros [H _]. specialize (H [120; 92; 121]%N). vm_compute in H. specialize (H eq_refl). discriminate.
+Qed.
+Example unchecked_entries_witness :
+  path_rules [47; 116; 47; 46; 46]%N = true /\ path_entries [47; 116; 47; 46; 46]%N = [[116]; [46; 46]]%N /\
+  filename_rules [46; 46]%N = false.
+Proof. repeat split; vm_compute; reflexivity. Qed.
+
+Lemma firstn_app_exact' {A} (a b : list A) : firstn (length (a ++ b) - length b) (a ++ b) = a.
 Proof.
   rewrite app_length. replace (length a + length b - length b) with (length a) by lia.
   rewrite firstn_app, firstn_all, Nat.sub_diag. cbn [firstn]. apply app_nil_r.
 Qed.
+
+(* ---- extract_name_from_file ---- *)
+Ltac caseFR := match goal with |- context[if filename_rules ?x then _ else _] => destruct (filename_rules x) eqn:?FR end.
+
+(* extract_name_from_file is exactly the spec: Some n for the files prefix ++ n ++ suffix with n
+   a valid name, None for every other file of the directory; never a panic (fix 19ab506) *)
+Theorem nc_extract_spec c f : valid_cfg c -> filename_rules f = true ->
+  nc_extract_name_from_file c f = spec_extract_name_from_file c f.
+Proof.
+  intros [Vp [Vs Vh]] Vf.
+  unfold nc_extract_name_from_file, spec_extract_name_from_file, is_prefix.
+  rewrite (sem_strip_prefix_eq FileNameT filename_rules gen_rules_filename) by auto.
+  destruct (starts_with (prefix c) f) eqn:P; [|reflexivity].
+  set (rest := skipn (length (prefix c)) f).
+  assert (Lr : length rest <= 255).
+  { unfold rest. rewrite skipn_length. destruct (filename_facts _ Vf). lia. }
+  destruct (filename_rules rest) eqn:Vr.
+  - rewrite (sem_strip_suffix_eq FileNameT filename_rules gen_rules_filename) by auto.
+    destruct (is_suffix (suffix c) rest); [|reflexivity].
+    caseFR; reflexivity.
+  - destruct (is_suffix (suffix c) rest) eqn:S; [|reflexivity].
+    caseFR; [|reflexivity]. exfalso.
+    apply is_suffix_iff in S as [m Em].
+    assert (Em' : firstn (length rest - length (suffix c)) rest = m).
+    { rewrite Em. apply firstn_app_exact'. }
+    rewrite Em' in FR. rewrite Em in Vr, Lr. rewrite tail_valid in Vr; auto. discriminate.
+Qed.
+
+Theorem extract_never_panics c f : valid_cfg c -> filename_rules f = true ->
+  nc_extract_name_from_file c f <> Panic.
+Proof.
+  intros V Vf. rewrite nc_extract_spec by auto. unfold spec_extract_name_from_file.
+  repeat match goal with |- context[if ?b then _ else _] => destruct b end; discriminate.
+Qed.
+
+Lemma skipn_app_exact {A} (a b : list A) : skipn (length a) (a ++ b) = b.
+Proof. rewrite skipn_app, skipn_all, Nat.sub_diag. reflexivity. Qed.
 
 (* a name written by path_for is read back unchanged *)
 Theorem name_roundtrip_file c n : valid_cfg c -> filename_rules n = true ->
@@ -1319,12 +1263,10 @@ Theorem name_roundtrip_file c n : valid_cfg c -> filename_rules n = true ->
   nc_extract_name_from_file c (prefix c ++ n ++ suffix c) = Val (Some n).
 Proof.
   intros V Vn L. pose proof V as [Vp [Vs Vh]].
-  rewrite nc_extract_eq by (auto; apply comp_valid; auto).
-  unfold is_prefix. rewrite starts_with_app, skipn_app_exact. cbn zeta.
-  rewrite app_length in L.
-  rewrite tail_valid by (auto; lia).
+  rewrite nc_extract_spec by (auto; apply comp_valid; auto).
+  unfold spec_extract_name_from_file, is_prefix. rewrite starts_with_app, skipn_app_exact.
   assert (is_suffix (suffix c) (n ++ suffix c) = true) as -> by (apply is_suffix_iff; eauto).
-  rewrite firstn_app_exact, Vn. reflexivity.
+  rewrite firstn_app_exact', Vn. reflexivity.
 Qed.
 
 Theorem name_roundtrip c n p : valid_cfg c -> filename_rules n = true -> nc_path_for c n = Val p ->
@@ -1379,77 +1321,42 @@ Proof.
   unfold nc_extract_name_from_path.
   destruct (str_eqb (path_normalize (path_hint c1)) (path_normalize (fp_path p))) eqn:D; cbn [negb]; [|reflexivity].
   destruct H as [[H1 H2]|H].
-  - rewrite nc_extract_eq by (auto; rewrite FN; auto). rewrite FN. unfold is_prefix.
+  - rewrite nc_extract_spec by (auto; rewrite FN; auto). rewrite FN. unfold spec_extract_name_from_file, is_prefix.
     destruct (starts_with (prefix c1) (prefix c2 ++ n ++ suffix c2)) eqn:S; [|reflexivity].
     apply starts_with_app_cases in S as [S|S]; congruence.
   - exfalso. unfold same_directory in *. apply str_eqb_eq in D, SD. rewrite <- SD in D.
     apply str_eqb_neq in H. contradiction.
 Qed.
 
-(* never a panic on files of the other domain either, under the same hypothesis (the full
-   statement `extract never panics on a valid file name' is false: see extract_total_refuted) *)
-Definition extract_total_full : Prop :=
-  forall c f, valid_cfg c -> filename_rules f = true -> nc_extract_name_from_file c f <> Panic.
-Theorem extract_total_refuted : ~ extract_total_full.
+
+(* ---- names from the unchecked conversions do not round-trip ---- *)
+Definition unchecked_roundtrip_full : Prop :=
+  forall c n p, valid_cfg c -> unchecked_fn n -> nc_path_for c n = Val p ->
+    nc_extract_name_from_file c (fp_file_name p) = Val (Some n).
+Theorem unchecked_roundtrip_refuted : ~ unchecked_roundtrip_full.
 Proof.
-  intros H. apply (H cfg_a [97; 46; 115]%N).
+  intros H. specialize (H cfg_a [120; 92; 121]%N [47; 116; 47; 97; 120; 92; 121; 46; 115]%N).
+  assert (E : nc_extract_name_from_file cfg_a (fp_file_name [47; 116; 47; 97; 120; 92; 121; 46; 115]%N) = Val None) by (vm_compute; reflexivity).
+  rewrite H in E; try discriminate.
   - repeat split; vm_compute; reflexivity.
-  - vm_compute; reflexivity.
+  - repeat split; try (vm_compute; reflexivity). discriminate.
   - vm_compute; reflexivity.
 Qed.
 
-(* ---- the full mutator statement is false of the code: one witness per known class ---- *)
-Definition mutators_match_spec_full : Prop :=
-  forall t s o, rules_of t s = true -> sem_apply (sty_of t) s o = spec_apply t s o.
-
+(* ---- regression: the witnesses of the repaired defect classes now follow the spec ---- *)
 Definition str_a124 : str := repeat 97%N 124.
-(* F15: FileName "a", push(0x80): reported as ExceedsMaximumLength, the spec says InvalidContent *)
-Example witness_err_kind :
-  sem_apply FileNameT [97]%N (OpPush 128%N) = Val ([97]%N, ObErr ExceedsMaximumLength) /\
-  spec_apply TFileName [97]%N (OpPush 128%N) = Val ([97]%N, ObErr InvalidContent) /\
-  known_class 255 filename_rules [97]%N (OpPush 128%N) = true.
+Example regression_witnesses :
+  sem_apply FileNameT [97]%N (OpPush 128%N) = Val ([97]%N, ObErr InvalidContent) /\
+  sem_new FileNameT [0]%N = Val (inr InvalidContent) /\
+  sem_apply (RestrictedFileNameT 2) [97; 98]%N (OpRemoveRange 0 0) = Val ([97; 98]%N, ObUnit) /\
+  sem_apply (RestrictedFileNameT 2) [97; 98]%N (OpStripPrefix []) = Val ([97; 98]%N, ObBool true) /\
+  sem_apply (RestrictedFileNameT 2) [97; 98]%N (OpStripSuffix []) = Val ([97; 98]%N, ObBool true) /\
+  sem_apply FileNameT str_a124 (OpStripPrefix str_a124) = Val (str_a124, ObErr InvalidContent) /\
+  nc_extract_name_from_file cfg_a [97; 46; 115]%N = Val None /\
+  nc_extract_name_from_file cfg_a [97]%N = Val None /\
+  path_add_path_entry [97]%N (repeat 98%N 254) = Val ([97]%N, inr ExceedsMaximumLength) /\
+  fp_from_path_and_file (repeat 97%N 200) (repeat 98%N 54) = Val (inl (repeat 97%N 200 ++ [47]%N ++ repeat 98%N 54)).
 Proof. repeat split; vm_compute; reflexivity. Qed.
-(* full string, zero-length removal: RestrictedFileName<2> "ab", remove_range(0, 0) panics *)
-Example witness_full_zero :
-  sem_apply (RestrictedFileNameT 2) [97; 98]%N (OpRemoveRange 0 0) = Panic /\
-  spec_apply (TRestricted 2) [97; 98]%N (OpRemoveRange 0 0) = Val ([97; 98]%N, ObUnit) /\
-  sem_apply (RestrictedFileNameT 2) [97; 98]%N (OpStripPrefix []) = Panic /\
-  sem_apply (RestrictedFileNameT 2) [97; 98]%N (OpStripSuffix []) = Panic.
-Proof. repeat split; vm_compute; reflexivity. Qed.
-(* FileName of 124 'a', strip_prefix(all of it): panics, the spec says Err(InvalidContent) *)
-Example witness_log_buffer :
-  sem_apply FileNameT str_a124 (OpStripPrefix str_a124) = Panic /\
-  spec_apply TFileName str_a124 (OpStripPrefix str_a124) = Val (str_a124, ObErr InvalidContent) /\
-  sem_apply FileNameT (removelast str_a124) (OpStripPrefix (removelast str_a124)) = Val (removelast str_a124, ObErr InvalidContent).
-Proof. repeat split; vm_compute; reflexivity. Qed.
-
-Theorem mutators_match_spec_refuted : ~ mutators_match_spec_full.
-Proof.
-  intros H. specialize (H (TRestricted 2) [97; 98]%N (OpRemoveRange 0 0)).
-  destruct witness_full_zero as [E1 [E2 _]]. cbn [sty_of] in H. rewrite E1, E2 in H.
-  assert (V : rules_of (TRestricted 2) [97; 98]%N = true) by (vm_compute; reflexivity).
-  specialize (H V). discriminate.
-Qed.
-
-(* ---- naming_scheme.rs: connection names; proved in proofs/NamesConnProofs.v ---- *)
-Definition connection_roundtrip_full : Prop :=
-  forall s r, (s < U128_MAX1)%N -> (r < U128_MAX1)%N ->
-    extract_sender_port_id (connection_name s r) = Some s /\
-    extract_receiver_port_id (connection_name s r) = Some r.
-Example connection_roundtrip_samples :
-  extract_sender_port_id (connection_name 0 0) = Some 0%N /\
-  extract_receiver_port_id (connection_name 0 340282366920938463463374607431768211455) = Some 340282366920938463463374607431768211455%N /\
-  extract_sender_port_id (connection_name 340282366920938463463374607431768211455 7) = Some 340282366920938463463374607431768211455%N /\
-  extract_receiver_port_id (connection_name 12345678901234567890 98765432109876543210) = Some 98765432109876543210%N.
-Proof. repeat split; vm_compute; reflexivity. Qed.
-
-Definition new_matches_spec_full : Prop := forall t b, wf_ty t -> sem_new (sty_of t) b = spec_new t b.
-Theorem new_matches_spec_refuted : ~ new_matches_spec_full.
-Proof.
-  intros H. specialize (H TFileName [128]%N). 
-  assert (W : wf_ty TFileName) by (unfold wf_ty; vm_compute; lia).
-  specialize (H W). vm_compute in H. discriminate.
-Qed.
 
 (* non-vacuity material *)
 Lemma cfg_a_valid : valid_cfg cfg_a.
@@ -1460,7 +1367,6 @@ Definition cfg_b : ncfg := {| prefix := [98]%N; suffix := [46; 115]%N; path_hint
 Lemma cfg_b_valid : valid_cfg cfg_b.
 Proof. repeat split; vm_compute; reflexivity. Qed.
 
-Theorem extract_total_partial c f : valid_cfg c -> filename_rules f = true ->
-  (nc_extract_name_from_file c f = Panic <-> stray_class c f = true) /\
-  (stray_class c f = false -> nc_extract_name_from_file c f = spec_extract_name_from_file c f).
-Proof. intros V Vf. split; [exact (nc_extract_panic_iff c f V Vf) | exact (nc_extract_refines c f V Vf)]. Qed.
+Theorem extract_total c f : valid_cfg c -> filename_rules f = true ->
+  nc_extract_name_from_file c f = spec_extract_name_from_file c f /\ nc_extract_name_from_file c f <> Panic.
+Proof. intros V Vf. split; [apply nc_extract_spec | apply extract_never_panics]; auto. Qed.
